@@ -3,7 +3,7 @@
 //! against the real code and by the replay finder.  No verification logic lives here.
 //!
 //! job line:  P=<0-5> [seed=<u64>|hex=<bytes>] [min=<n>] [max=<n>] [mut=a,b,..] [rate=<f64>]
-//!            [unsafe=1] [ext=1] [buffer=1] [cfgfirst=1] [calls=<spec>;<spec>..]
+//!            [unsafe=1] [ext=1] [buffer=1] [cfgfirst=1] [bufsize=<usize>] [calls=<spec>;<spec>..]
 //!   calls spec: seed | hex:<bytes> | reset | fresh:<bytes> | freshseed   (fresh*: same call on a NEW generator with the same config)
 //!   state=1: append ` | <depth>;<mark positions>;<memo keys>` (simulated machine after the last call on the generator)
 //! output line: ok <hex>[,<hex>...][ | <state>]   or   err <message>   or   panic
@@ -24,6 +24,7 @@ fn run(line: &str) -> Result<(Vec<Vec<u8>>, Option<String>), String> {
     let (mut min, mut max): (Option<usize>, Option<usize>) = (None, None);
     let mut muts: Vec<String> = vec![];
     let mut rate: Option<f64> = None;
+    let mut bufsize: Option<usize> = None;
     let (mut uns, mut ext, mut buf) = (false, false, false);
     let mut calls: Vec<String> = vec![];
     let mut cfgfirst = false;
@@ -38,6 +39,7 @@ fn run(line: &str) -> Result<(Vec<Vec<u8>>, Option<String>), String> {
             "max" => max = Some(v.parse().map_err(|_| "max")?),
             "mut" => muts = v.split(',').filter(|s| !s.is_empty()).map(|s| s.to_string()).collect(),
             "rate" => rate = Some(v.parse().map_err(|_| "rate")?),
+            "bufsize" => bufsize = Some(v.parse().map_err(|_| "bufsize")?),
             "unsafe" => uns = v == "1",
             "ext" => ext = v == "1",
             "buffer" => buf = v == "1",
@@ -66,6 +68,7 @@ fn run(line: &str) -> Result<(Vec<Vec<u8>>, Option<String>), String> {
             if let Some(m) = max { g = g.with_max_opcodes(m); }
         }
         if let Some(r) = rate { g = g.with_mutation_rate(r); }
+        if let Some(b) = bufsize { g = g.with_buffer_size(b); }
         if !cfgfirst {
             if uns { g = g.with_unsafe_mutations(true); }
             if ext { g = g.with_ext_opcodes(true); }
